@@ -184,10 +184,17 @@ func vRunPack(s *storage, fileRef blob.Ref) (crashed bool, err error) {
 
 const vFileBody = "{f}"
 
+// vEOFChoice: explore both reader behaviours of the large store (the crash entries only, to keep
+// the other entries within the quick budget).
+var vEOFChoice bool
+
 // vPackWorld: a file of nchunks data chunks (1..2 symbolic bytes each) and its schema blob, all
 // loose in small, plus an unrelated loose blob; bs is in ascending ref order.
 func vPackWorld(nchunks int) (*vmodel.Store, *vmodel.Store, *vmodel.KV, []*vBlobState, blob.Ref, []byte) {
 	small, large, meta := &vmodel.Store{}, &vmodel.Store{}, &vmodel.KV{}
+	if vEOFChoice {
+		large.EOFWithData = vrt.Bool() // the large store's readers may deliver io.EOF with the last bytes
+	}
 	var bs []*vBlobState
 	other := &vBlobState{ref: blob.VerifSmallRef(5), data: []byte("o"), inSmall: true}
 	bs = append(bs, other)
@@ -381,8 +388,8 @@ func vPackSteps(nchunks int, faultMode, reindex bool) {
 	}
 }
 
-func VK04cPackCrash1() { vPackSteps(1, false, false) }
-func VK04cPackCrash2() { vPackSteps(2, false, false) }
+func VK04cPackCrash1() { vEOFChoice = true; vPackSteps(1, false, false) }
+func VK04cPackCrash2() { vEOFChoice = true; vPackSteps(2, false, false) }
 func VK04cPackFault2() { vPackSteps(2, true, false) }
 func VK04dReindex2()   { vPackSteps(2, false, true) }
 
